@@ -230,17 +230,20 @@ def coq_compare(ctx, tag, cases):
         steps = [([(dp.w(c['nat'].b.ins[p]), v) for p, v in pokes], n) for pokes, n in c['steps']]
         st = netlist.steps_term(steps)
         exp = '[' + '; '.join(zlist(v) for v in [c['init_vals']] + c['trace']) + ']'
+        pk = '[' + '; '.join('(%d%%nat, %s)' % (w, zlit(v)) for w, v in getattr(dp, 'init_pokes', [])) + ']'
         body.append('Definition exp%d := %s.\nDefinition steps%d : list step_t := %s.' % (i, exp, i, st))
+        # power-up state: every wire 0, the constructor-time puts (a Reg shows its masked initial value on q), propagateAll
+        body.append('Definition s0_%d (dd : design AnySt) := init_poked dd d%d_st0 %s.' % (i, i, pk))
         terms = ['(registered_once_b d%d && single_writer_b d%d && outs_nodup_b d%d, topo_b (combs d%d))' % (i, i, i, i),
-                 'first_diff exp%d (run_trace d%d (init d%d d%d_st0) steps%d)' % (i, i, i, i, i),
-                 'first_diff exp%d (ref_run_trace d%d (init d%d d%d_st0) steps%d)' % (i, i, i, i, i)]
+                 'first_diff exp%d (run_trace d%d (s0_%d d%d) steps%d)' % (i, i, i, i, i),
+                 'first_diff exp%d (ref_run_trace d%d (s0_%d d%d) steps%d)' % (i, i, i, i, i)]
         for j, (how, sched, _) in enumerate(c['perms']):
             ds = '[' + '; '.join('{| d_enable := %s; d_leaves := [%s] |}' % (
                 'None' if en is None else 'Some %d%%nat' % en, '; '.join('%d%%nat' % path_idx[p] for p in leaves))
                 for _, en, leaves in sched) + ']'
             body.append('Definition ds%d_%d : list driver := %s.' % (i, j, ds))
-            terms.append('first_diff exp%d (run_trace (with_drivers d%d ds%d_%d) (init d%d d%d_st0) steps%d)' % (i, i, i, j, i, i, i))
-        terms.append('(let f := final_state d%d (init d%d d%d_st0) steps%d in (map st_obs (sts f), Z.of_nat (total f), Z.of_nat (length (pend f))))' % (i, i, i, i))
+            terms.append('first_diff exp%d (run_trace (with_drivers d%d ds%d_%d) (s0_%d (with_drivers d%d ds%d_%d)) steps%d)' % (i, i, i, j, i, i, i, j, i))
+        terms.append('(let f := final_state d%d (s0_%d d%d) steps%d in (map st_obs (sts f), Z.of_nat (total f), Z.of_nat (length (pend f))))' % (i, i, i, i))
         items.append(('c%d' % i, '(' + ', '.join(terms) + ')'))
     ctx.log('evaluating %d designs in Coq (%s)' % (len(cases), tag))
     res = common.coq_eval(tag, '\n'.join(body), items, timeout=900)
@@ -276,17 +279,22 @@ def coq_compare(ctx, tag, cases):
 
 # ------------------------------------------------------------------------------------------------ self-loop finding
 def self_loop_split():
-    """the guard of C05_clk_split is necessary, on the real simulator: an inverter feeding itself is accepted by
-    topologicalSort and makes clk(2) differ from clk(1);clk(1).  Returns (clk2_value, clk1clk1_value)."""
+    """the guard of C05_clk_split is necessary: an inverter feeding itself makes clk(2) differ from clk(1);clk(1) IF the
+    simulator accepts that netlist (it did before /repo commit 04873f4, finding C05-F1; topologicalSort now raises).
+    Returns ('rejected', message) or ('accepted', clk2_value, clk1clk1_value)."""
     py4hw = common.quiet_import()
     out = []
     for parts in ((2,), (1, 1)):
+        try:
+            with quiet():
+                hw = py4hw.HWSystem(); a = hw.wire('a', 1); py4hw.Not(hw, 'inv', a, a)
+                sim = hw.getSimulator()
+        except Exception as ex:
+            return ('rejected', '%s: %s' % (type(ex).__name__, ex))
         with quiet():
-            hw = py4hw.HWSystem(); a = hw.wire('a', 1); py4hw.Not(hw, 'inv', a, a)
-            sim = hw.getSimulator()
             for n in parts: sim.clk(n)
         out.append(a.get())
-    return tuple(out)
+    return ('accepted', out[0], out[1])
 
 
 # ------------------------------------------------------------------------------------------------ run
@@ -363,18 +371,21 @@ def run(ctx):
             if tie_ok:
                 raise
             ctx.notes['coq_compare_error'] = str(ex)[-1500:]
-    # guard necessity of clk_split on the real code (known finding, narrow: a combinational self-loop)
+    # guard necessity of clk_split on the real code: finding C05-F1 (fixed in /repo by 04873f4: the self-loop is refused).
+    # A "fixed" entry suppresses nothing: if the netlist is accepted again and the split is visible, that is a VIOLATION.
     try:
-        a2, a11 = self_loop_split()
+        sl = self_loop_split()
         ctx.count(('self-loop-split',))
-        ctx.notes['self_loop_split'] = {'clk(2)': a2, 'clk(1);clk(1)': a11}
-        if a2 != a11:
+        ctx.notes['self_loop_split'] = sl
+        if sl[0] == 'accepted' and sl[1] != sl[2]:
             kf = [k for k in ctx.known if k['id'] == 'C05-F1' and k.get('status') == 'known']
             if kf:
                 ctx.known_finding('C05-F1', kf[0]['text'])
             else:
-                ctx.violation({'what': 'clk(2) differs from clk(1);clk(1) on a design with a combinational self-loop', 'design': "Not(hw,'inv',a,a), a 1 bit",
-                               'clk(2)': a2, 'clk(1);clk(1)': a11})
+                ctx.violation({'what': 'clk(2) differs from clk(1);clk(1): a combinational self-loop is accepted by getSimulator() and makes the extra '
+                                       'propagateAll of every clk() call visible (finding C05-F1 is back)',
+                               'design': "hw=HWSystem(); a=hw.wire('a',1); Not(hw,'inv',a,a); s=hw.getSimulator()",
+                               'clk(2)': sl[1], 'clk(1);clk(1)': sl[2]})
     except Exception as ex:
         ctx.notes['self_loop_split_error'] = repr(ex)
     if not found and not tie_ok:
